@@ -37,7 +37,7 @@ type GenParams struct {
 }
 
 func defaultGen() GenParams {
-	return GenParams{MinTips: 4, MaxTips: 12, Rooted: 2, PMulti: 0.35, LenMode: 3, PZeroLen: 0.12, SupMode: 3, InnerNames: 0.1, Comments: 0.0, Prefix: "t"}
+	return GenParams{MinTips: 3, MaxTips: 12, Rooted: 2, PMulti: 0.35, LenMode: 3, PZeroLen: 0.12, SupMode: 3, InnerNames: 0.1, Comments: 0.0, Prefix: "t"}
 }
 
 func genLen(r *rand.Rand, gp *GenParams, mode int) int64 {
